@@ -94,7 +94,11 @@ theorem xrefRows_noPanic (w1 w2 w3 : Nat) (start : Int) : ∀ (todo j : Nat) (da
               · split
                 · simp [Outcome.noPanic]
                 · exact ih _ _ _
-          · exact ih _ _ _
+          · split
+            · simp [Outcome.noPanic]
+            · split
+              · simp [Outcome.noPanic]
+              · exact ih _ _ _
 
 theorem xrefSections_noPanic (w1 w2 w3 : Nat) : ∀ (n : Nat) (index : List Int) (data : Bytes) (x : XTable),
     index.length ≤ n → (xrefSections w1 w2 w3 index data x).noPanic := by
